@@ -1,5 +1,5 @@
 ------------------------------ MODULE MC_Reader ------------------------------
-EXTENDS Reader, Json
+EXTENDS Reader, Json, SequencesExt
 CONSTANTS Walks, MaxEvents
 VARIABLES s, w, hist
 Init == s = S0 /\ hist = <<>> /\ w \in (IF Walks = 0 THEN {0} ELSE 1..Walks)
@@ -23,5 +23,26 @@ Inv_AtMostOnce == D11_AtMostOnce(s)
 Inv_InOrder    == D11_InOrder(s)
 Inv_NoDrop     == D11_NoDrop(s)
 Inv_NoStall    == D11_NoStall(s)
+\* directed histories (overlapping, non-LIFO handlers that call back): predicted observable alternatives per step
+A(x, m) == [a |-> x, m |-> m]
+RECURSIVE Predict(_, _, _)
+Predict(acts, k, SS) == IF k > Len(acts) THEN <<>>
+                        ELSE LET Q == UNION {UNION {Quiesce(u) : u \in EnvApply(st, acts[k])} : st \in SS} IN
+                             <<[act |-> acts[k], alts |-> {Proj(x) : x \in Q}]>> \o Predict(acts, k + 1, Q)
+DirectedActs == {
+  \* handler 1 calls back and keeps running; handler 2 starts on the replacement loop; 1 returns; 2 calls back; a message arrives
+  <<A("push", 0), A("start", 1), A("replace", 1), A("push", 0), A("start", 2), A("ret", 1), A("replace", 2), A("push", 0), A("start", 3), A("ret", 3), A("ret", 2)>>,
+  \* the same with the message already queued when handler 2 calls back
+  <<A("push", 0), A("start", 1), A("replace", 1), A("push", 0), A("start", 2), A("ret", 1), A("push", 0), A("replace", 2), A("start", 3), A("ret", 3), A("ret", 2)>>,
+  \* strictly nested (LIFO) depth 3
+  <<A("push", 0), A("start", 1), A("replace", 1), A("push", 0), A("start", 2), A("replace", 2), A("push", 0), A("start", 3), A("replace", 3), A("push", 0), A("start", 4), A("ret", 4), A("ret", 3), A("ret", 2), A("ret", 1)>>,
+  \* three overlapping handlers returning in arrival order, the last one calls back
+  <<A("push", 0), A("start", 1), A("replace", 1), A("push", 0), A("start", 2), A("replace", 2), A("push", 0), A("start", 3), A("ret", 1), A("ret", 2), A("replace", 3), A("push", 0), A("start", 4), A("ret", 4), A("ret", 3)>>,
+  \* a handler calls back twice
+  <<A("push", 0), A("start", 1), A("replace", 1), A("push", 0), A("start", 2), A("ret", 2), A("replace", 1), A("push", 0), A("start", 3), A("ret", 3), A("ret", 1)>>,
+  \* the older handler returns while the younger one is parked at the gate, then the younger calls back
+  <<A("push", 0), A("start", 1), A("replace", 1), A("push", 0), A("ret", 1), A("start", 2), A("replace", 2), A("push", 0), A("start", 3), A("ret", 3), A("ret", 2)>>}
+Directed == {Predict(q, 1, {S0}) : q \in DirectedActs}
+ASSUME Walks = 0 \/ JsonSerialize("directed.json", SetToSeq(Directed))
 Emit == (Walks > 0 /\ (Len(hist) = MaxEvents \/ GenActs = {})) => PrintT(<<"HIST", ToJson(hist)>>)
 =============================================================================
